@@ -286,7 +286,21 @@ impl Gen {
     fn fresh_name(&mut self, dir: bool) -> String {
         self.fresh += 1;
         match self.rng.below(6) {
-            0 => format!("n{}.t", self.fresh),
+            0 => {
+                if self.rng.chance(1, 3) {
+                    // twins that differ in bit 5 of one character only ('^'/'~', '_'/0x7F, 0xC9/0xE9): different names
+                    let k = self.rng.below(3);
+                    return match self.rng.below(6) {
+                        0 => format!("T^{}.X", k),
+                        1 => format!("T~{}.X", k),
+                        2 => format!("U_{}", k),
+                        3 => format!("U\u{7f}{}", k),
+                        4 => format!("\u{c9}{}.Q", k),
+                        _ => format!("\u{e9}{}.Q", k),
+                    };
+                }
+                format!("n{}.t", self.fresh)
+            }
             1 => format!("NEW{:05}.DAT", self.fresh),
             2 if !dir => format!("X{}.", self.fresh),
             3 => {
